@@ -1,9 +1,10 @@
 #!/bin/bash
-# tools/verify_seed.sh <Cxx> <k>  : confirm a seeded change produced by a sub-agent
+# tools/verify_seed.sh <Cxx> <k> [<dest-k>] : confirm a seeded change produced by a sub-agent
+#   (<dest-k>: number under which it is stored, for later rounds; default <k>)
 #   - demo passes on the current tree, fails with the patch
 #   - relevant existing tests still pass with the patch
 # on success the change is stored as /verif/seeded/<Cxx>-m<k>/
-id="$1"; k="$2"; src="/tmp/seed/$id.out/m$k"
+id="$1"; k="$2"; dk="${3:-$2}"; src="/tmp/seed/$id.out/m$k"
 [ -f "$src/patch.diff" ] || { echo "$id m$k: no patch"; exit 2; }
 wt="$(mktemp -d /tmp/anyio-seedchk-XXXXXX)"
 git -C /repo worktree add --detach "$wt" HEAD >/dev/null 2>&1
@@ -32,7 +33,7 @@ for line in sys.stdin:
 print(n)' 2>/tmp/seedchk-$id-$k.newfail)
 echo "$id m$k: demo_orig_exit=$o demo_mut_exit=$m tests: $t (failed lines: $nf)"
 if [ "$o" = "0" ] && [ "$m" != "0" ] && [ "$nf" = "0" ]; then
-  d="/verif/seeded/$id-m$k"; mkdir -p "$d"; cp "$src/patch.diff" "$src/demo.py" "$src/meta.json" "$d/" 2>/dev/null
+  d="/verif/seeded/$id-m$dk"; mkdir -p "$d"; cp "$src/patch.diff" "$src/demo.py" "$src/meta.json" "$d/" 2>/dev/null
   echo "$id m$k: CONFIRMED -> $d"
 fi
 cd /; git -C /repo worktree remove --force "$wt"; rm -rf "$wt"
